@@ -1,11 +1,13 @@
 # property -> engine functions (each: f(prop, tier, seed, verdict, tree))
 
 def extend(table):
-    from . import cfgmatrix, fsm
+    from . import cfgmatrix, fsm, wide
     table["C19"] = [cfgmatrix.run]
     for p in ("C01", "C02", "C03", "C04", "C05", "C06", "C07", "C08", "C09", "C11", "C12", "C15", "C16", "C17"):
         table[p] = [fsm.prop_generic]
     table["C10"] = table["C10"] + [fsm.prop_generic]
+    table["C14"] = [wide.run]
+    table["C12"] = [fsm.prop_generic, wide.run]
     table["C16"] = [fsm.prop_c16]
     table["C17"] = [fsm.prop_c17]
     table["C18"] = [fsm.prop_c18]
